@@ -130,7 +130,7 @@ class MpUnReachNLRI(Attribute):
                 withdraw = BGPLS.parse(nlri_bin)
                 return dict(afi_safi=(afi, safi), withdraw=withdraw)
             else:
-                pass
+                return dict(afi_safi=(afi, safi), withdraw=repr(nlri_bin))
         else:
             return dict(afi_safi=(afi, safi), withdraw=repr(nlri_bin))
 
